@@ -138,6 +138,16 @@ impl Source for FileSource {
             f.by_ref()
                 .take(full_size.into_u64())
                 .read_to_end(&mut buf)?;
+            if buf.len() != full_size.into_usize() {
+                // The file holds less than its size promised (a pseudo file, or a file which
+                // has shrunk since it was opened).
+                return Err(format_error!(format!(
+                    "File is shorter than expected: {} bytes read instead of {} at offset {}",
+                    buf.len(),
+                    full_size.into_u64(),
+                    region.begin().into_u64()
+                )));
+            }
             if let BlockCheck::Crc32 = block_check {
                 assert_slice_crc(&buf)?;
             }
